@@ -1,7 +1,7 @@
 //! Host functions registered in every session (C02, C20), and the object-level API operations (C20).
 
-use crate::Session;
-use tulisp::{list, tulisp_fn, Error, TulispContext, TulispObject};
+use crate::{canon_string, escape, unescape, Session};
+use tulisp::{destruct_bind, list, lists, tulisp_fn, Error, ErrorKind, TulispContext, TulispObject};
 
 pub fn register_host_fns(ctx: &mut TulispContext) {
     #[tulisp_fn(add_func = "ctx", name = "h-two")]
@@ -43,6 +43,229 @@ pub fn register_host_fns(ctx: &mut TulispContext) {
     }
 }
 
-pub fn handle(_s: &mut Session, _rest: &str) -> String {
-    "BADCMD".to_string()
+fn new_handle(s: &mut Session, o: TulispObject) -> String {
+    s.handles.push(o);
+    format!("H {}", s.handles.len() - 1)
+}
+
+fn res_handle(s: &mut Session, r: Result<TulispObject, Error>) -> String {
+    match r {
+        Ok(o) => new_handle(s, o),
+        Err(_) => "ERR".to_string(),
+    }
+}
+
+fn db(pat: &str, x: TulispObject) -> Result<String, Error> {
+    let show = |o: &TulispObject| canon_string(o);
+    match pat {
+        "1" => {
+            destruct_bind!((a b) = x);
+            Ok(format!("{} {}", show(&a), show(&b)))
+        }
+        "2" => {
+            destruct_bind!((a &optional b c) = x);
+            Ok(format!("{} {} {}", show(&a), show(&b), show(&c)))
+        }
+        "3" => {
+            destruct_bind!((a &rest r) = x);
+            Ok(format!("{} {}", show(&a), show(&r)))
+        }
+        "4" => {
+            destruct_bind!((a &optional b &rest r) = x);
+            Ok(format!("{} {} {}", show(&a), show(&b), show(&r)))
+        }
+        _ => Err(Error::new(ErrorKind::Undefined, "pattern".to_string())),
+    }
+}
+
+/// API <op> <args…>; handles are indices into the session's handle table.
+pub fn handle(s: &mut Session, rest: &str) -> String {
+    let parts: Vec<&str> = rest.splitn(3, ' ').collect();
+    let op = parts.first().copied().unwrap_or("");
+    let a1 = parts.get(1).copied().unwrap_or("");
+    let a2 = parts.get(2).copied().unwrap_or("");
+    let h = |s: &Session, t: &str| -> Option<TulispObject> {
+        t.trim().parse::<usize>().ok().and_then(|i| s.handles.get(i).cloned())
+    };
+    let hs = |s: &Session, t: &str| -> Option<Vec<TulispObject>> {
+        t.split_whitespace().map(|x| h(s, x)).collect()
+    };
+    match op {
+        "new" => match a1 {
+            "int" => match a2.trim().parse::<i64>() {
+                Ok(n) => new_handle(s, TulispObject::from(n)),
+                Err(_) => "BADCMD".to_string(),
+            },
+            "float" => match u64::from_str_radix(a2.trim(), 16) {
+                Ok(b) => new_handle(s, TulispObject::from(f64::from_bits(b))),
+                Err(_) => "BADCMD".to_string(),
+            },
+            "str" => new_handle(s, TulispObject::from(unescape(a2))),
+            "bool" => new_handle(s, TulispObject::from(a2.trim() == "1")),
+            "nil" => new_handle(s, TulispObject::nil()),
+            "t" => new_handle(s, TulispObject::t()),
+            "sym" => {
+                let o = s.ctx.intern(a2.trim());
+                new_handle(s, o)
+            }
+            _ => "BADCMD".to_string(),
+        },
+        "cons" | "push" | "append" | "eq" | "equal" | "plist_get" => {
+            let both = format!("{} {}", a1, a2);
+            let v = match hs(s, &both) {
+                Some(v) if v.len() == 2 => v,
+                _ => return "BADCMD".to_string(),
+            };
+            match op {
+                "cons" => new_handle(s, TulispObject::cons(v[0].clone(), v[1].clone())),
+                "push" => match v[0].push(v[1].clone()) {
+                    Ok(_) => "OK".to_string(),
+                    Err(_) => "ERR".to_string(),
+                },
+                "append" => match v[0].append(v[1].clone()) {
+                    Ok(_) => "OK".to_string(),
+                    Err(_) => "ERR".to_string(),
+                },
+                "eq" => format!("BOOL {}", v[0].eq(&v[1])),
+                "equal" => format!("BOOL {}", v[0].equal(&v[1])),
+                _ => {
+                    let r = lists::plist_get(&v[0], &v[1]);
+                    res_handle(s, r)
+                }
+            }
+        }
+        "list" => {
+            let both = format!("{} {}", a1, a2);
+            let v = match hs(s, &both) {
+                Some(v) => v,
+                None => return "BADCMD".to_string(),
+            };
+            let l = TulispObject::nil();
+            for x in v {
+                if l.push(x).is_err() {
+                    return "ERR".to_string();
+                }
+            }
+            new_handle(s, l)
+        }
+        "fromiter" => {
+            let both = format!("{} {}", a1, a2);
+            let v = match hs(s, &both) {
+                Some(v) => v,
+                None => return "BADCMD".to_string(),
+            };
+            let l: TulispObject = v.into_iter().collect();
+            new_handle(s, l)
+        }
+        "car" | "cdr" | "cadr" | "cddr" | "caar" | "cdar" | "caddr" | "deepcopy" => {
+            let o = match h(s, a1) {
+                Some(o) => o,
+                None => return "BADCMD".to_string(),
+            };
+            let r = match op {
+                "car" => o.car(),
+                "cdr" => o.cdr(),
+                "cadr" => o.cadr(),
+                "cddr" => o.cddr(),
+                "caar" => o.caar(),
+                "cdar" => o.cdar(),
+                "caddr" => o.caddr(),
+                _ => o.deep_copy(),
+            };
+            res_handle(s, r)
+        }
+        "showlast" => match s.handles.last() {
+            Some(o) => format!("OK {}", canon_string(o)),
+            None => "BADCMD".to_string(),
+        },
+        "show" => match h(s, a1) {
+            Some(o) => format!("OK {}", canon_string(&o)),
+            None => "BADCMD".to_string(),
+        },
+        "len" => match h(s, a1) {
+            Some(o) => format!("N {}", o.base_iter().count()),
+            None => "BADCMD".to_string(),
+        },
+        "iter" => {
+            let o = match h(s, a1) {
+                Some(o) => o,
+                None => return "BADCMD".to_string(),
+            };
+            let items: Vec<String> = match a2.trim() {
+                "int" => o.iter::<i64>().map(|x| x.map(|v| v.to_string()).unwrap_or_else(|_| "ERR".into())).collect(),
+                "float" => o.iter::<f64>().map(|x| x.map(|v| format!("{:016x}", v.to_bits())).unwrap_or_else(|_| "ERR".into())).collect(),
+                "str" => o.iter::<String>().map(|x| x.map(|v| escape(&v).replace(' ', "\\_")).unwrap_or_else(|_| "ERR".into())).collect(),
+                _ => o.base_iter().map(|x| canon_string(&x)).collect(),
+            };
+            format!("ITER {}", items.join(" "))
+        }
+        "conv" => {
+            let o = match h(s, a1) {
+                Some(o) => o,
+                None => return "BADCMD".to_string(),
+            };
+            let e = |_| "ERR".to_string();
+            match a2.trim() {
+                "as_int" => o.as_int().map(|v| format!("V {}", v)).unwrap_or_else(e),
+                "try_int" => o.try_int().map(|v| format!("V {}", v)).unwrap_or_else(e),
+                "as_float" => o.as_float().map(|v| format!("V {:016x}", v.to_bits())).unwrap_or_else(e),
+                "try_float" => o.try_float().map(|v| format!("V {:016x}", v.to_bits())).unwrap_or_else(e),
+                "as_string" => o.as_string().map(|v| format!("V {}", escape(&v))).unwrap_or_else(e),
+                "as_symbol" => o.as_symbol().map(|v| format!("V {}", escape(&v))).unwrap_or_else(e),
+                "i64" => i64::try_from(o).map(|v| format!("V {}", v)).unwrap_or_else(e),
+                "f64" => f64::try_from(o).map(|v| format!("V {:016x}", v.to_bits())).unwrap_or_else(e),
+                "string" => String::try_from(o).map(|v| format!("V {}", escape(&v))).unwrap_or_else(e),
+                "bool" => format!("V {}", bool::from(o)),
+                "opt_i64" => Option::<i64>::try_from(o).map(|v| format!("V {:?}", v)).unwrap_or_else(e),
+                "opt_string" => Option::<String>::try_from(o).map(|v| format!("V {}", v.map(|x| escape(&x)).unwrap_or_else(|| "None".into()))).unwrap_or_else(e),
+                "preds" => format!(
+                    "V {} {} {} {} {} {} {} {} {}",
+                    o.consp(), o.listp(), o.integerp(), o.floatp(), o.numberp(), o.stringp(), o.symbolp(), o.null(), o.keywordp()
+                ),
+                _ => "BADCMD".to_string(),
+            }
+        }
+        "db" => match h(s, a2) {
+            Some(o) => match db(a1, o) {
+                Ok(t) => format!("DB {}", t),
+                Err(_) => "ERR".to_string(),
+            },
+            None => "BADCMD".to_string(),
+        },
+        "sym" => {
+            // sym <op> <name> [handle]
+            let p: Vec<&str> = a2.split_whitespace().collect();
+            let name = p.first().copied().unwrap_or("");
+            let sym = s.ctx.intern(name);
+            let arg = p.get(1).and_then(|t| h(s, t));
+            match a1 {
+                "set" | "setscope" => {
+                    let v = match arg {
+                        Some(v) => v,
+                        None => return "BADCMD".to_string(),
+                    };
+                    let r = if a1 == "set" { sym.set(v) } else { sym.set_scope(v) };
+                    match r {
+                        Ok(_) => "OK".to_string(),
+                        Err(_) => "ERR".to_string(),
+                    }
+                }
+                "unset" => match sym.unset() {
+                    Ok(_) => "OK".to_string(),
+                    Err(_) => "ERR".to_string(),
+                },
+                "get" => {
+                    let r = sym.get();
+                    res_handle(s, r)
+                }
+                "boundp" => format!("BOOL {}", sym.boundp()),
+                _ => "BADCMD".to_string(),
+            }
+        }
+        "alist" => {
+            // alist <k1> <v1> <k2> <v2> …  (alist_from for 0..3 pairs) / plist likewise
+            "BADCMD".to_string()
+        }
+        _ => "BADCMD".to_string(),
+    }
 }
